@@ -97,8 +97,10 @@ func execC05d(c CaseC05d) *Outcome {
 		if err != nil {
 			return nil, fmt.Errorf("the directory cannot be opened: %v", err)
 		}
+		// one options value for every database of the instance, as callers commonly do
+		shared := &orbitdb.CreateDBOptions{Replicate: &no}
 		for d := 0; d < n; d++ {
-			s, err := db.Open(ctx, addrs[d], &orbitdb.CreateDBOptions{Replicate: &no})
+			s, err := db.Open(ctx, addrs[d], shared)
 			if err != nil {
 				return nil, fmt.Errorf("database %d cannot be opened: %v", d, err)
 			}
